@@ -343,12 +343,22 @@ GapTemplates ==
   \cup {<<"collect", <<"rep", <<"then", J("a"), <<"tospan", <<"ornot", J("b")>>>>>>, 0, Inf>>, "vec">>,
         <<"foldlw", <<"any">>, <<"rep", <<"then", J("a"), <<"tospan", <<"empty">>>>>>, 0, Inf>>, "g">>,
         <<"foldrw", <<"rep", J("a"), 0, Inf>>, <<"tospan", <<"empty">>>>, "g">>}
-Templates(fam) == CASE fam = "memoT" -> MemoTemplates [] fam = "gapT" -> GapTemplates [] fam = "gapTi" -> {g \in GapTemplates : ~HasOp(g, {"any", "not"})} [] fam = "rcvE" -> RcvETemplates [] fam = "stat" -> StatGrammars [] fam = "rcvN" -> RcvNTemplates [] fam = "txt" -> TxtTemplates [] fam = "txtc" -> TxtCTemplates
+(* C04: extension parsers that run a sub-parser through InputRef::parse / InputRef::check, the sub-parser succeeding *)
+(* with a pending error left behind, or failing behind an earlier alternative that got further                        *)
+ExtInner == {<<"ornot", J("a")>>, <<"collect", <<"rep", J("a"), 0, Inf>>, "vec">>, <<"or", JJ("a", "b"), J("a")>>, J("a"),
+             <<"then", J("a"), <<"validate", <<"ornot", J("b")>>, "1", "F">>>>}
+ExtAfter == {J("b"), <<"then", J("b"), J("c")>>, <<"empty">>}
+ExtTemplates ==
+  UNION {{<<sq, <<"extsub", x>>, y>> : sq \in {"then", "ithen", "theni"}, y \in ExtAfter} : x \in ExtInner}
+  \cup {<<"or", <<"then", J("a"), <<"then", J("b"), J("c")>>>>, <<"then", <<"extsub", x>>, J("c")>>>> : x \in ExtInner}
+  \cup {<<"collect", <<"rep", <<"extsub", <<"then", J("a"), <<"ornot", J("b")>>>>>>, 0, Inf>>, "vec">>,
+        <<"run", <<"rep", <<"extsub", <<"then", J("a"), <<"ornot", J("b")>>>>>>, 0, Inf>>>>}
+Templates(fam) == CASE fam = "memoT" -> MemoTemplates [] fam = "extT" -> ExtTemplates [] fam = "gapT" -> GapTemplates [] fam = "gapTi" -> {g \in GapTemplates : ~HasOp(g, {"any", "not"})} [] fam = "rcvE" -> RcvETemplates [] fam = "stat" -> StatGrammars [] fam = "rcvN" -> RcvNTemplates [] fam = "txt" -> TxtTemplates [] fam = "txtc" -> TxtCTemplates
                     \* byte inputs have no text::newline; the radix family looks at int / digits only
                     [] fam = "txtb" -> {g \in TxtTemplates \cup TxtCTemplates : ~HasOp(g, {"newline"}) /\ g \notin {TUKw(<<"E", "a">>), <<"then", TUKw(<<"E", "a">>), RestCap>>}}
                     [] fam = "txtr" -> {<<"then", tp, RestCap>> : tp \in {TDigits(r) : r \in {"2", "8", "10", "16", "36"}} \cup {TInt(r) : r \in {"2", "8", "10", "16", "36"}}} [] fam = "drpT" -> DrpTemplates [] fam = "rcvT" -> RcvTemplates [] fam = "lblT" -> LblTemplates
                     [] fam = "pratt" -> PrattTemplates [] fam = "prattP" -> PrattPTemplates [] fam = "rec" -> RecTemplates [] fam = "lrec" -> LRecTemplates [] fam = "repT" -> RepTemplates
-TemplateFams == {"rec", "lrec", "repT", "pratt", "prattP", "memoT", "rcvT", "lblT", "drpT", "txt", "txtc", "txtb", "txtr", "gapT", "gapTi", "rcvN", "stat", "rcvE"}
+TemplateFams == {"rec", "lrec", "repT", "pratt", "prattP", "memoT", "rcvT", "lblT", "drpT", "txt", "txtc", "txtb", "txtr", "gapT", "gapTi", "rcvN", "stat", "rcvE", "extT"}
 
 (* Instrumentation (C01, C18): every node of a grammar is wrapped in probe(enter).ignore_then(node).then_ignore(   *)
 (* probe(exit)); a probe consumes nothing, never fails and logs (id, cursor, inspector state, context), so the   *)
@@ -446,7 +456,7 @@ OffTok(o) == IF \E i \in 0..(NTok - 1) : TokStart(i) = o
              THEN Toks[(CHOOSE i \in 0..(NTok - 1) : TokStart(i) = o) + 1] ELSE ""
 FurthestFailure ==
   (st.done /\ ~st.panicked /\ ~result.ok /\ KfClean /\ Ety # "empty"
-   /\ ~HasOp(G, {"not", "recover", "label", "maperr", "nested", "pratt"})) =>
+   /\ ~HasOp(G, {"not", "recover", "label", "maperr", "nested", "pratt", "extsub"})) =>
     LET d == DenTop
         e == result.errs[Len(result.errs)]
     IN /\ 0 <= e.s /\ e.s <= e.e /\ (~IsTree => e.e <= TotalLen)
